@@ -150,7 +150,7 @@ impl Serial for FileInfoSerial {
                 }
                 FileKind::Pad | FileKind::LinkerOffset | FileKind::Group => {
                     // doesn't allow paths
-                    if self.path.has_value() {
+                    if self.path.is_present() {
                         return Err(SlinkyError::InvalidFieldCombo {
                             field1: "`kind: pad`, `kind: linker_offset` or `kind: group`".into(),
                             field2: "path".into(),
@@ -176,7 +176,7 @@ impl Serial for FileInfoSerial {
 
         let subfile = match kind {
             FileKind::Object | FileKind::LinkerOffset | FileKind::Pad | FileKind::Group => {
-                if self.subfile.has_value() {
+                if self.subfile.is_present() {
                     return Err(SlinkyError::InvalidFieldCombo {
                         field1: "subfile".into(),
                         field2: "non `kind: archive`".into(),
@@ -189,7 +189,7 @@ impl Serial for FileInfoSerial {
 
         let pad_amount = match kind {
             FileKind::Object | FileKind::LinkerOffset | FileKind::Archive | FileKind::Group => {
-                if self.pad_amount.has_value() {
+                if self.pad_amount.is_present() {
                     return Err(SlinkyError::InvalidFieldCombo {
                         field1: "pad_amount".into(),
                         field2: "non `kind: pad`".into(),
@@ -202,7 +202,7 @@ impl Serial for FileInfoSerial {
 
         let section = match kind {
             FileKind::Object | FileKind::Archive | FileKind::Group => {
-                if self.section.has_value() {
+                if self.section.is_present() {
                     return Err(SlinkyError::InvalidFieldCombo {
                         field1: "section".into(),
                         field2: "non `kind: pad or kind: linker_offset`".into(),
@@ -215,7 +215,7 @@ impl Serial for FileInfoSerial {
 
         let linker_offset_name = match kind {
             FileKind::Object | FileKind::Pad | FileKind::Archive | FileKind::Group => {
-                if self.linker_offset_name.has_value() {
+                if self.linker_offset_name.is_present() {
                     return Err(SlinkyError::InvalidFieldCombo {
                         field1: "linker_offset_name".into(),
                         field2: "non `kind: linker_offset`".into(),
@@ -228,7 +228,7 @@ impl Serial for FileInfoSerial {
 
         let section_order = match kind {
             FileKind::Pad | FileKind::LinkerOffset | FileKind::Group => {
-                if self.section_order.has_value() {
+                if self.section_order.is_present() {
                     return Err(SlinkyError::InvalidFieldCombo {
                         field1: "section_order".into(),
                         field2: "non `kind: object` or `kind: archive`".into(),
@@ -243,7 +243,7 @@ impl Serial for FileInfoSerial {
 
         let mut files = match kind {
             FileKind::Object | FileKind::Archive | FileKind::Pad | FileKind::LinkerOffset => {
-                if self.files.has_value() {
+                if self.files.is_present() {
                     return Err(SlinkyError::InvalidFieldCombo {
                         field1: "files".into(),
                         field2: "non `kind: group`".into(),
@@ -256,7 +256,7 @@ impl Serial for FileInfoSerial {
 
         let dir = match kind {
             FileKind::Object | FileKind::Archive | FileKind::Pad | FileKind::LinkerOffset => {
-                if self.dir.has_value() {
+                if self.dir.is_present() {
                     return Err(SlinkyError::InvalidFieldCombo {
                         field1: "dir".into(),
                         field2: "non `kind: group`".into(),
